@@ -23,56 +23,7 @@ def self_fields(b, op, through=("deref", "deref_mut", "as_ref", "as_mut", "borro
     return None
 
 
-def run(chk):
-    P = mir.Program("K1")
-    chk.use_program(P)
-    chk.explain("Rules over built MIR (pre-borrowck: scope drops on normal and unwind edges are explicit): R1/R2 "
-                "Frame::enter / EnterGuard::drop call Ctxt::enter / Ctxt::exit exactly once on the same two fields; R3 "
-                "the guard returned by enter is held across the user call in Frame::call, Frame::with and "
-                "FrameFuture::poll and dropped on the normal and the unwind successor; R4 Ctxt::enter/exit are called "
-                "directly only by forwarding Ctxt impls, Frame::enter and EnterGuard::drop; R5 Frame::drop closes once, "
-                "into_parts forgets; R6 ThreadLocalCtxt::enter and ::exit are the same swap(self.id, frame) and swap "
-                "is mem::swap with the map entry; R7 isolation by id: entry keyed by the id parameter, callers pass "
-                "self.id, the first id handed out differs from the shared id; R8 the storage is thread_local!; R9 "
-                "root/push/disabled construction; R10 frame snapshot is immutable shared data; forwarding Ctxt impls.")
-    chk.trust("rustc nightly MIR construction incl. unwind edges; thread_local!, RefCell, HashMap::entry/insert, mem::swap, Arc::make_mut contracts")
-    chk.assume("user code enters and exits frames in stack order (the property's premise)")
-    chk.exhaustive = True
-
-    # ---- R1 -------------------------------------------------------------------------------------------------
-    def r1():
-        b = P.body(FRAME + "enter")
-        cs = b.calls_to(trait=CTXT, name="enter")
-        if len(cs) != 1 or b.count_on_paths({cs[0].bb}) != (1, 1):
-            return False, "Frame::enter must call Ctxt::enter exactly once on every path", [], b.span
-        c = cs[0]
-        if self_fields(b, c.args[0]) != ["ctxt"] or self_fields(b, c.args[1]) != ["scope"]:
-            return False, "Ctxt::enter is called with (%s, %s), expected (self.ctxt, &mut self.scope)" % (
-                o_str(b.origin(c.args[0])), o_str(b.origin(c.args[1]))), [], c.loc
-        r = b.origin(0)
-        if not (r[0] == "agg" and (r[1].get("adt") or "").endswith("EnterGuard")):
-            return False, "Frame::enter returns %s, not an EnterGuard" % o_str(r), [], b.span
-        f = dict(zip(r[1]["fields"], r[2]))
-        if not mir.o_is_param(f["scope"], idx=1):
-            return False, "the guard protects %s, not this frame" % o_str(f["scope"]), [], b.span
-        return True, "", [c.loc]
-    chk.ob("C03.R1:Frame::enter", "Frame::enter activates its own scope on its own ctxt exactly once and returns a guard over itself", r1)
-
-    # ---- R2 -------------------------------------------------------------------------------------------------
-    def r2():
-        b = P.body("<emit::frame::EnterGuard<'a, C> as core::ops::drop::Drop>::drop")
-        cs = b.calls_to(trait=CTXT, name="exit")
-        if len(cs) != 1 or b.count_on_paths({cs[0].bb}) != (1, 1):
-            return False, "EnterGuard::drop must call Ctxt::exit exactly once on every path (found %d sites)" % len(cs), [], b.span
-        c = cs[0]
-        if self_fields(b, c.args[0]) != ["scope", "ctxt"] or self_fields(b, c.args[1]) != ["scope", "scope"]:
-            return False, "Ctxt::exit is called with (%s, %s), expected the guarded frame's (ctxt, scope)" % (
-                o_str(b.origin(c.args[0])), o_str(b.origin(c.args[1]))), [], c.loc
-        if b.calls_to(trait=CTXT, name="enter"):
-            return False, "EnterGuard::drop re-enters", [], b.span
-        return True, "", [c.loc]
-    chk.ob("C03.R2:EnterGuard::drop", "dropping the guard exits the same scope on the same ctxt exactly once", r2)
-
+def bracket_rules(chk, P, prefix):
     # ---- R3 -------------------------------------------------------------------------------------------------
     def bracket(key, user_pred, what):
         def f():
@@ -124,12 +75,66 @@ def run(chk):
     def is_guard_with(b, c):
         return (c.callee.get("path") or "").startswith("emit::frame::EnterGuard") and c.callee.get("name") == "with"
 
-    chk.ob("C03.R3:Frame::call", "the enter guard is held across the closure and dropped on return and on unwind",
+    chk.ob("%s.R3:Frame::call", "the enter guard is held across the closure and dropped on return and on unwind",
            bracket(FRAME + "call", is_call_once, "Frame::call"))
-    chk.ob("C03.R3:FrameFuture::poll", "every poll enters the frame, holds the guard across the inner poll and drops it on return and on unwind",
+    chk.ob("%s.R3:FrameFuture::poll" % prefix, "every poll enters the frame, holds the guard across the inner poll and drops it on return and on unwind",
            bracket("<emit::frame::FrameFuture<C, F> as core::future::future::Future>::poll", is_poll, "FrameFuture::poll"))
-    chk.ob("C03.R3:Frame::with", "the temporary guard outlives the with_current call",
+    chk.ob("%s.R3:Frame::with" % prefix, "the temporary guard outlives the with_current call",
            bracket(FRAME + "with", is_guard_with, "Frame::with"))
+
+
+
+def run(chk):
+    P = mir.Program("K1")
+    chk.use_program(P)
+    chk.explain("Rules over built MIR (pre-borrowck: scope drops on normal and unwind edges are explicit): R1/R2 "
+                "Frame::enter / EnterGuard::drop call Ctxt::enter / Ctxt::exit exactly once on the same two fields; R3 "
+                "the guard returned by enter is held across the user call in Frame::call, Frame::with and "
+                "FrameFuture::poll and dropped on the normal and the unwind successor; R4 Ctxt::enter/exit are called "
+                "directly only by forwarding Ctxt impls, Frame::enter and EnterGuard::drop; R5 Frame::drop closes once, "
+                "into_parts forgets; R6 ThreadLocalCtxt::enter and ::exit are the same swap(self.id, frame) and swap "
+                "is mem::swap with the map entry; R7 isolation by id: entry keyed by the id parameter, callers pass "
+                "self.id, the first id handed out differs from the shared id; R8 the storage is thread_local!; R9 "
+                "root/push/disabled construction; R10 frame snapshot is immutable shared data; forwarding Ctxt impls.")
+    chk.trust("rustc nightly MIR construction incl. unwind edges; thread_local!, RefCell, HashMap::entry/insert, mem::swap, Arc::make_mut contracts")
+    chk.assume("user code enters and exits frames in stack order (the property's premise)")
+    chk.exhaustive = True
+
+    # ---- R1 -------------------------------------------------------------------------------------------------
+    def r1():
+        b = P.body(FRAME + "enter")
+        cs = b.calls_to(trait=CTXT, name="enter")
+        if len(cs) != 1 or b.count_on_paths({cs[0].bb}) != (1, 1):
+            return False, "Frame::enter must call Ctxt::enter exactly once on every path", [], b.span
+        c = cs[0]
+        if self_fields(b, c.args[0]) != ["ctxt"] or self_fields(b, c.args[1]) != ["scope"]:
+            return False, "Ctxt::enter is called with (%s, %s), expected (self.ctxt, &mut self.scope)" % (
+                o_str(b.origin(c.args[0])), o_str(b.origin(c.args[1]))), [], c.loc
+        r = b.origin(0)
+        if not (r[0] == "agg" and (r[1].get("adt") or "").endswith("EnterGuard")):
+            return False, "Frame::enter returns %s, not an EnterGuard" % o_str(r), [], b.span
+        f = dict(zip(r[1]["fields"], r[2]))
+        if not mir.o_is_param(f["scope"], idx=1):
+            return False, "the guard protects %s, not this frame" % o_str(f["scope"]), [], b.span
+        return True, "", [c.loc]
+    chk.ob("C03.R1:Frame::enter", "Frame::enter activates its own scope on its own ctxt exactly once and returns a guard over itself", r1)
+
+    # ---- R2 -------------------------------------------------------------------------------------------------
+    def r2():
+        b = P.body("<emit::frame::EnterGuard<'a, C> as core::ops::drop::Drop>::drop")
+        cs = b.calls_to(trait=CTXT, name="exit")
+        if len(cs) != 1 or b.count_on_paths({cs[0].bb}) != (1, 1):
+            return False, "EnterGuard::drop must call Ctxt::exit exactly once on every path (found %d sites)" % len(cs), [], b.span
+        c = cs[0]
+        if self_fields(b, c.args[0]) != ["scope", "ctxt"] or self_fields(b, c.args[1]) != ["scope", "scope"]:
+            return False, "Ctxt::exit is called with (%s, %s), expected the guarded frame's (ctxt, scope)" % (
+                o_str(b.origin(c.args[0])), o_str(b.origin(c.args[1]))), [], c.loc
+        if b.calls_to(trait=CTXT, name="enter"):
+            return False, "EnterGuard::drop re-enters", [], b.span
+        return True, "", [c.loc]
+    chk.ob("C03.R2:EnterGuard::drop", "dropping the guard exits the same scope on the same ctxt exactly once", r2)
+
+    bracket_rules(chk, P, "C03")
 
     def guard_with():
         b = P.body("emit::frame::EnterGuard::<'a, C>::with")
